@@ -57,11 +57,11 @@ def run(ctx):
     if ctx.quick:
         rnd = random.Random(ctx.seed)
         rnd.shuffle(big)
-        big = big[:1500]
+        big = big[:400]
     cases = small + big
     ctx.cov["evaluations"] = len(cases)
     ctx.cov["rule"] = ("case = (arrival order of 1..4 responses over {d1,d2,d3,empty,nodeErr,protoErr}, threshold 1..n, drain flag) "
-                       "emitted by TLC from Quorum.tla Init; quick: all orders of length <= 3 and 1500 seeded orders of length 4, "
+                       "emitted by TLC from Quorum.tla Init; quick: all orders of length <= 3 and 400 seeded orders of length 4, "
                        "thorough: all 11820; non-trivial = at least two successful responses")
     ctx.cov["distinct_nontrivial"] = len({vlib.json.dumps(c, sort_keys=True) for c in cases
                                           if sum(1 for k in c["order"] if k in ("d1", "d2", "d3", "empty")) >= 2})
@@ -89,6 +89,8 @@ def run(ctx):
                       "real RelayProcessor: order %s threshold %d drain %s consumed %s answered %s (cv=%s)" % (
                           r["order"], r["T"], r["drain"], {"g": r["g"], "e": r["e"], "ne": r["ne"], "pe": r["pe"]}, r["res"], r["cv"]),
                       {"cases": [cases[idx]]})
+        return
+    if ctx.quick:
         return
     _, resc = _run_cases(ctx, cases, "allc", conf=True)
     if not resc["accepted"]:
